@@ -68,7 +68,9 @@ func assemble(r *Repo, ti *tmplInfo, m *model, em *emission, name string) (*genF
 	if err != nil {
 		return nil, []string{"template: " + err.Error()}
 	}
-	src := em.Head + head + em.Text + childStubs(em.Text)
+	vocab := ti.vocabFor(cfgT)
+	emText := applyVocab(em.Text, vocab)
+	src := applyVocab(em.Head, vocab) + head + emText + childStubs(emText)
 	in := buildInstTypesOnly(r, name, src)
 	in.Cfg = cfgT
 	in.LineMap = lm
